@@ -16,7 +16,13 @@ Model of retention / deletion (C14), mirroring pkg/retention/retention.go as it 
     Phases 1-4 work segment by segment, so the step list below has one micro-step per (phase, victim);
     cutting it after any prefix models a crash at any point of the function.
   * `ReadLocalSegmeta(false)` (segmetarw.go l.156): segmeta.json does not carry `AllPQIDs`
-    (`json:"-"`), so the metas every pass hands to `DeleteSegmentData` have no pqids.
+    (`json:"-"`), so the metas every pass hands to `DeleteSegmentData` have no pqids.  After the
+    repair `DeleteSegmentData` therefore starts with a loop that reads the pqids of every victim that
+    carries none from the victim's `.sfm` file (`writer.ReadSfm`, which lives in the segment's base
+    directory: readable only while the local files exist) — `withSfmPqids`.  (Before the repair step 4
+    ranged over the empty `AllPQIDs` and was dead code: kept as `deleteSegmentDataOld` / `passOld`.)
+    `RemoveSegmentFromEmptyPqmeta` only queues the removal (a channel drained every 10 s or every
+    100 requests); the model treats step 4 as done when it is queued, the harness drains the queue.
   * `doVolumeBasedDeletion` (l.212-300): `allowedVolumeGB*1000*1000*1000` (uint64), warning-counter
     gate, candidates = metrics metas ++ segmeta entries (all orgs), `sort.Slice` by
     `LatestEpochMS` resp. `uint64(LatestEpochSec) * 1000`, then the loop
@@ -97,6 +103,7 @@ structure Store where
   memMeta : List Nat := []           -- keys present in the in-memory metadata
   pqMeta : List (Nat × Nat) := []    -- (pqid, key) entries of the empty-PQ meta files
   segmetaJson : List Meta := []      -- the lines of segmeta.json
+  sfmPq : List (Nat × Nat) := []     -- (pqid, key): pqid is in AllPQIDs of key's .sfm file (written at rotation)
 deriving DecidableEq, Repr
 
 inductive Phase where
@@ -136,8 +143,22 @@ def stepsFor (order : List Phase) (vs : List Meta) : List Step := order.flatMap 
 
 def runSteps (s : Store) (steps : List Step) : Store := steps.foldl applyStep s
 
+/-- `writer.ReadSfm(key).AllPQIDs`: the .sfm file lives in the segment's base directory, so it can be
+read only while the local files exist (otherwise: error, logged, the victim keeps `AllPQIDs == nil`) -/
+def sfmPqids (s : Store) (k : Nat) : List Nat :=
+  if k ∈ s.files then (s.sfmPq.filter (fun e => decide (e.2 = k))).map (·.1) else []
+
+/-- the loop at the head of `DeleteSegmentData` (the repair): a victim without pqids gets those of its
+.sfm file.  (`pqids = []` models `AllPQIDs == nil`.) -/
+def withSfmPqids (s : Store) (vs : List Meta) : List Meta :=
+  vs.map (fun v => if v.pqids.isEmpty then { v with pqids := sfmPqids s v.key } else v)
+
 /-- `DeleteSegmentData(vs)` interrupted after `cut` micro-steps (`cut ≥ length` = not interrupted) -/
 def deleteSegmentData (order : List Phase) (vs : List Meta) (s : Store) (cut : Nat) : Store :=
+  if vs.isEmpty then s else runSteps s ((stepsFor order (withSfmPqids s vs)).take cut)
+
+/-- `DeleteSegmentData` before the repair: the pqids are those the metas carry (none, for every pass) -/
+def deleteSegmentDataOld (order : List Phase) (vs : List Meta) (s : Store) (cut : Nat) : Store :=
   if vs.isEmpty then s else runSteps s ((stepsFor order vs).take cut)
 
 /-- `ReadLocalSegmeta(false)`: the lines of segmeta.json, without pqids -/
@@ -151,6 +172,17 @@ def passCut (order : List Phase) (nowMs : Nat) (hours : Int) (s : Store) (cut : 
 def pass (order : List Phase) (nowMs : Nat) (hours : Int) (s : Store) : Store :=
   let vs := victims nowMs hours 0 (readLocal s)
   deleteSegmentData order vs s (stepsFor order vs).length
+
+/-- the pass before the repair (interrupted / uninterrupted) -/
+def passCutOld (order : List Phase) (nowMs : Nat) (hours : Int) (s : Store) (cut : Nat) : Store :=
+  deleteSegmentDataOld order (victims nowMs hours 0 (readLocal s)) s cut
+
+def passOld (order : List Phase) (nowMs : Nat) (hours : Int) (s : Store) : Store :=
+  let vs := victims nowMs hours 0 (readLocal s)
+  deleteSegmentDataOld order vs s (stepsFor order vs).length
+
+/-- a store without its empty-PQ meta files (the other four stores and the .sfm contents) -/
+def withoutPq (s : Store) : Store := { s with pqMeta := [] }
 
 /-- keys of a store that have local files but no segmeta.json line: nothing will ever delete them -/
 def orphans (s : Store) : List Nat := s.files.filter (fun k => decide (k ∉ s.segmetaJson.map (·.key)))
